@@ -163,6 +163,14 @@ fn main() {
             lzma2w::run_lzma2w(&mut rep, &mut rng, n, thorough, args.get(6).map(|s| s == "check").unwrap_or(false));
             rep
         }
+        "ENCNORMAL" => {
+            // bulk validation of the normal-mode encoder model: `vh ENCNORMAL <tier> <seed> <outdir> [cases] [max_len]`
+            let mut rep = Report::new("ENCNORMAL", "cases = the real LZMAWriter (raw LZMA1, EncodeMode::Normal) against Model/EncNormal.lean, byte for byte; non-trivial = non-empty input");
+            let n: u64 = args.get(5).and_then(|s| s.parse().ok()).unwrap_or(200);
+            let max_len: usize = args.get(6).and_then(|s| s.parse().ok()).unwrap_or(40_000);
+            twin::run_encnormal(&mut rep, &mut rng, n, max_len);
+            rep
+        }
         "C02" => {
             let mut rep = Report::new("C02", "cases = (format, data kind, size class, partition style, option class); generated from one PRNG; non-trivial = non-empty input; distinct = distinct signature");
             c02::run(&mut rep, &mut rng, thorough);
